@@ -91,7 +91,7 @@ def py_pairs(block, n):
     rb, re, cb, ce, triu = py_block_parts(block, n)
     out = []
     for r in range(rb, re):
-        for c in range(cb, min(ce, n)):
+        for c in range(cb, ce if n is None else min(ce, n)):
             if (not triu) or c > r:
                 out.append((r, c))
     return out
@@ -176,7 +176,7 @@ def build_block3(ex, name, st, origin):
 # ---------------------------------------------------------------------------------------------
 # Lemma: closed form of the block-free length.  2 * LenRows(0, k, 0, n, triu) = 2kn - k(k+1) for
 # 0 <= k <= n, hence Len(None, n) = n(n-1)/2 = LenFull(n).  Proved by the z3 induction schema.
-from dvc.contracts import induction_lemma
+from dvc.contracts import induction_lemma, LEMMAS
 
 _n = z3.Int('n_')
 _kk = z3.Int('k_')
@@ -204,3 +204,85 @@ induction_lemma(
     patterns=lambda k: [z3.MultiPattern(LenRowsf(_rb2, _a2, _cb2, _ce2, _t2), LenRowsf(_rb2, k, _cb2, _ce2, _t2))],
     doc='all pairs of an earlier row rank before the first pair of a later row', props=('C06',),
     axioms=layout_axioms())
+
+
+# ---------------------------------------------------------------------------------------------
+# C view of a block: struct DTWBlock {rb, re, cb, ce, triu}; re == 0 / ce == 0 mean "up to the end"
+from dvc.vals import Ptr, Ref, RecObj
+
+
+def _block_fields(ex, st, block):
+    if isinstance(block, Ptr):
+        if block.oid is None:
+            return None
+        return st.heap[block.oid].fields
+    if isinstance(block, Ref):
+        return st.heap[block.oid].fields
+    if isinstance(block, dict):
+        return block
+    raise Unsupported('C block value %r' % (block,))
+
+
+def _effblock(ex, st, block, nr, nc):
+    """Effective block of the C engine as a dict(rb, re, cb, ce, triu)."""
+    f = _block_fields(ex, st, block)
+    nr, nc = zint(nr), zint(nc)
+    if f is None:     # NULL: every (r, c) pair
+        return dict(rb=z3.IntVal(0), re=nr, cb=z3.IntVal(0), ce=nc, triu=z3.BoolVal(False))
+    re, ce = zint(f['re']), zint(f['ce'])
+    return dict(rb=zint(f['rb']), re=z3.If(re == 0, nr, re), cb=zint(f['cb']), ce=z3.If(ce == 0, nc, ce),
+                triu=zbool(f['triu']))
+
+
+def _decodable(ex, st, block, nr, nc):
+    """What the Cython wrappers hand to C: all-zero bounds (no block) or a valid explicit block."""
+    f = _block_fields(ex, st, block)
+    if f is None:
+        return True
+    rb, re, cb, ce = [zint(f[k]) for k in ('rb', 're', 'cb', 'ce')]
+    nr, nc = zint(nr), zint(nc)
+    return z3.Or(z3.And(rb == 0, re == 0, cb == 0, ce == 0),
+                 z3.And(0 <= rb, rb < re, re <= nr, 0 <= cb, cb < ce, ce <= nc))
+
+
+def _py_effblock(ex, st, block, nr, nc):
+    f = _block_fields(ex, st, block)
+    if f is None:
+        return ((0, nr), (0, nc), False)
+    re = f['re'] or nr
+    ce = f['ce'] or nc
+    return ((f['rb'], re), (f['cb'], ce)) if f['triu'] else ((f['rb'], re), (f['cb'], ce), False)
+
+
+def _py_decodable(ex, st, block, nr, nc):
+    f = _block_fields(ex, st, block)
+    if f is None:
+        return True
+    rb, re, cb, ce = f['rb'], f['re'], f['cb'], f['ce']
+    return (rb == re == cb == ce == 0) or (0 <= rb < re <= nr and 0 <= cb < ce <= nc)
+
+
+spec('EffBlock', z3=_effblock, py=_py_effblock, doc='block the C engine works on after decoding re/ce == 0')
+spec('DecodableBlock', z3=_decodable, py=_py_decodable)
+
+induction_lemma(
+    'RowsBeyond', [_rb2, _cb2, _ce2, _a2], _kk, _a2,
+    hyp=lambda k: z3.And(_a2 >= _rb2, _a2 >= _ce2 - 1),
+    prop=lambda k: LenRowsf(_rb2, k, _cb2, _ce2, True) == LenRowsf(_rb2, _a2, _cb2, _ce2, True),
+    patterns=lambda k: [z3.MultiPattern(LenRowsf(_rb2, _a2, _cb2, _ce2, True), LenRowsf(_rb2, k, _cb2, _ce2, True))],
+    doc='rows at or beyond the last column select no pair in a triangular block', props=('C06',),
+    axioms=layout_axioms())
+
+induction_lemma(
+    'LenFullBeyond', [_n], _kk, _n,
+    hyp=lambda k: _n >= 0,
+    prop=lambda k: 2 * LenRowsf(0, k, 0, _n, True) == _n * _n - _n,
+    doc='rows beyond the last column add nothing: LenRows(0,k,0,n) = n(n-1)/2 for k >= n', props=('C06',),
+    axioms=layout_axioms() + LEMMAS['LenFullClosed'].axioms())
+
+induction_lemma(
+    'LenRowsNonneg', [_rb2, _cb2, _ce2, _t2], _kk, _rb2,
+    hyp=lambda k: z3.BoolVal(True),
+    prop=lambda k: LenRowsf(_rb2, k, _cb2, _ce2, _t2) >= 0,
+    patterns=lambda k: [LenRowsf(_rb2, k, _cb2, _ce2, _t2)],
+    doc='a number of pairs is never negative', props=('C06',), axioms=layout_axioms())
